@@ -191,8 +191,10 @@ func fromCtyNumberUInt(bf *big.Float, target reflect.Value, path cty.Path) error
 		panic("weird number of bits in target uint")
 	}
 
+	// (big.Float.Uint64 reports big.Exact for some truncated fractions, so
+	// wholeness is checked separately.)
 	iv, accuracy := bf.Uint64()
-	if accuracy != big.Exact || iv > max {
+	if accuracy != big.Exact || !bf.IsInt() || iv > max {
 		return path.NewErrorf("value must be a whole number, between 0 and %d inclusive", max)
 	}
 
